@@ -40,8 +40,42 @@ def geometry_family():
     return out
 
 
+def badchar_family():
+    """Characters that start no token (ASCII and not, the byte-order mark included) at the first offset of the file,
+    at the start of a later line, after a tab, between tokens, doubled."""
+    out = []
+    for ch in ["@", "$", "`", "\ufeff", "\u00e9", "\u2028", "\x7f", "\x01"]:
+        name = "U+%04X" % ord(ch)
+        for label, text in (("file-start", ch + "int\ta;\nb"), ("line-start", "int\ta;\n" + ch + "b c"), ("after-tab", "\t" + ch + "a b"),
+                            ("between", "a " + ch + " b"), ("doubled", ch + ch + "a\tb"), ("glued", "a" + ch + "b"), ("alone", ch),
+                            ("before-nl", "a" + ch + "\nb")):
+            out.append((f"badchar:{name}:{label}", text))
+    return out
+
+
+def keyword_family():
+    """Every keyword of C (and every entry of the tool's own keyword table) decorated so that it is an ordinary
+    identifier: underscores in front / behind / both (the GNU alternate spellings among them), another case, a letter
+    or digit glued on -- and the keyword itself, between other tokens."""
+    kws = {"auto", "break", "case", "char", "const", "continue", "default", "do", "double", "else", "enum", "extern", "float",
+           "for", "goto", "if", "int", "long", "register", "return", "short", "signed", "sizeof", "static", "struct", "switch",
+           "typedef", "union", "unsigned", "void", "volatile", "while", "inline", "restrict", "NULL", "asm", "typeof"}
+    try:
+        from norminette.lexer.dictionary import keywords
+        kws |= set(keywords)
+    except Exception:  # noqa: BLE001
+        pass
+    out = []
+    for kw in sorted(kws):
+        for label, w in (("plain", kw), ("__kw", "__" + kw), ("__kw__", "__" + kw + "__"), ("_kw", "_" + kw), ("kw_", kw + "_"),
+                         ("kw__", kw + "__"), ("swapcase", kw.swapcase()), ("capital", kw.capitalize()), ("kwx", kw + "x"), ("xkw", "x" + kw),
+                         ("kw1", kw + "1"), ("_kw_", "_" + kw + "_")):
+            out.append((f"keyword:{label}", f"a {w} b;\n{w}\t(c)"))
+    return out
+
+
 def cases(tier, seed):
-    out = escape_family() + geometry_family()
+    out = escape_family() + geometry_family() + badchar_family() + keyword_family()
     cs = carriers.conforming("quick", cap=10 if tier == "quick" else 60)
     from . import diffcommon
     files = [(e["fname"], e["text"], 12) for e in diffcommon.enriched()] + [(c["fname"], c["text"], 12) for c in cs]
